@@ -1,7 +1,34 @@
 import GeoVerif.Gen.SrcSweep
 import GeoVerif.Props.C02
+/-!
+# Source tie for `_geometry.py`: `do_bounds_overlap`, `ensure_edge_bounds`, `find_line_intersection`, `do_edges_intersect`
+
+`GeoVerif/Gen/SrcSweep.lean` is regenerated from the current text of `_geometry.py` on every run (nested functions
+lifted, the local class `_Event` a structure, `events.sort()` the stable merge sort that asks only `b < a`, the active
+`set` a list without `__eq__`-duplicates).  Here every translated definition is proved equal to the hand-written model:
+
+* `do_bounds_overlap` = `overlap`, `ensure_edge_bounds` = `ensureEdge`, for all inputs;
+* `find_line_intersection l1 l2` = `findIntersection` of the two *un-wrapped* segments (point and `is_boundary` flag), for
+  all inputs: the x-ordering flip is `orderX`, `get_line_bounds` is `lo`/`hi`, `div` is `segDiv`, and the local-frame
+  determinants `o + det(d, ·)/div` are the model's absolute-coordinate `segX`/`segY` (any origin gives the same point);
+* `_create_events` = `mkEvents`, `not (b < a)` = `evLe a b`, `__eq__` ⇔ equal `__hash__` keys, the inner loop = `hit`, the
+  outer loop = `go` (by induction over the event list, for every active set), hence
+  `do_edges_intersect A B` = `Sweep.sweep` over the un-wrapped edges with the source's segment test, for all inputs;
+* the model drops `ensure_edge_bounds` (its idealisation: no edge spans more than 180° of longitude, `NoWrap`); for such
+  edges the source functions *are* `findIntersection` and `doEdgesIntersect`, and C02's deciding theorems are restated
+  for the source (`src_findLineIntersection_isSome_iff`, `src_sweep_eq_anyCross`).
+
+What the translation reads without proof is declared in `harness/srcunits.py` (`sweep_unit`): `round_half_up(x, 10)` = `x`
+on exact rationals, `Coordinate(x, y)` = the pair handed to the constructor, `to_float()` = (lon, lat) (pinned), the group
+labels `'a'`/`'b'` = `false`/`true`.
+-/
 namespace GV.C02SrcSweep
 open GV GV.Sweep
+
+-- the proofs carry fallbacks for other spellings of the source; on the current text some of them are not reached
+set_option linter.unusedTactic false
+set_option linter.unreachableTactic false
+set_option linter.unusedSimpArgs false
 
 theorem maxR_eq_hi (a b : Rat) : maxR a b = hi a b := rfl
 theorem minR_eq_lo (a b : Rat) : minR a b = lo a b := rfl
@@ -9,12 +36,17 @@ theorem minR_eq_lo (a b : Rat) : minR a b = lo a b := rfl
 theorem doBoundsOverlap_eq (a b : Rat × Rat) :
     Src.Sweep.doBoundsOverlap a b = overlap a.1 a.2 b.1 b.2 := by
   rw [Bool.eq_iff_iff]
-  simp only [Src.Sweep.doBoundsOverlap, overlap, decide_eq_true_eq, ge_iff_le]
+  simp only [Src.Sweep.doBoundsOverlap, overlap, decide_eq_true_eq]
   exact Iff.rfl
 
 theorem ensureEdgeBounds_eq (a b : Pt) : Src.Sweep.ensureEdgeBounds a b = ensureEdge a b := by
+  have habs : ∀ x y : Rat, absR (x - y) = absR (y - x) := by
+    intro x y; unfold absR; split_ifs <;> linarith
   simp only [Src.Sweep.ensureEdgeBounds, ensureEdge]
-  split_ifs <;> simp_all
+  split_ifs <;> first
+    | rfl
+    | (exfalso; simp only [decide_eq_true_eq, gt_iff_lt, not_lt, Int.cast_ofNat, Int.cast_zero, habs b.1 a.1] at *; linarith)
+    | simp_all
 
 theorem sort2_fst (a b : Rat) : (Py.sort2 a b).1 = lo a b := by
   unfold Py.sort2 lo; split_ifs <;> first | rfl | (exfalso; linarith)
@@ -22,7 +54,7 @@ theorem sort2_snd (a b : Rat) : (Py.sort2 a b).2 = hi a b := by
   unfold Py.sort2 hi; split_ifs <;> first | rfl | (exfalso; linarith)
 
 theorem det_eq (a b : Rat × Rat) : Src.Sweep.findLineIntersection.det a b = det2 a b := by
-  simp only [Src.Sweep.findLineIntersection.det, det2]
+  simp only [Src.Sweep.findLineIntersection.det, det2] <;> ring
 
 theorem glb_eq (l : Seg) : Src.Sweep.findLineIntersection.get_line_bounds l =
     ((lo l.1.1 l.2.1, hi l.1.1 l.2.1), (lo l.1.2 l.2.2, hi l.1.2 l.2.2)) := by
@@ -49,7 +81,7 @@ theorem findLineIntersection_eq (l1 l2 : Seg) :
   generalize ensureEdge l2.1 l2.2 = m2
   rw [orderX_ite m1, orderX_ite m2]
   by_cases hc1 : m1.2.1 < m1.1.1 <;> by_cases hc2 : m2.2.1 < m2.1.1 <;>
-    simp only [hc1, hc2, decide_true, decide_false, if_true, if_false, Bool.false_eq_true, gt_iff_lt] <;>
+    simp only [hc1, hc2, decide_true, decide_false, if_true, if_false, Bool.false_eq_true] <;>
     ( simp only [findCore, glb_eq, doBoundsOverlap_eq, det_eq, Py.map2, ite_mk3, ite_mk3']
       split_ifs <;> first
         | rfl
@@ -65,7 +97,7 @@ theorem findLineIntersection_eq (l1 l2 : Seg) :
              tauto
            · intro hp
              rw [hp]
-             simp [List.contains_cons]))
+             simp))
 
 
 /-! ### `do_edges_intersect` -/
@@ -78,7 +110,7 @@ def toEv (e : Event) : Ev := ⟨e.x, e.is_start, e.segment, e.group⟩
 def key (e : Event) : Act := (e.segment, e.group)
 
 theorem event_eq_iff (a b : Event) : Src.Sweep.doEdgesIntersect.Event.eq a b = true ↔ key a = key b := by
-  simp only [Src.Sweep.doEdgesIntersect.Event.eq, key, Bool.and_eq_true, beq_iff_eq, Prod.mk.injEq]
+  simp only [Src.Sweep.doEdgesIntersect.Event.eq, key, Bool.and_eq_true, beq_iff_eq, Prod.mk.injEq] <;> tauto
 
 /-- `__hash__` is consistent with `__eq__` (what reading the `set` as a duplicate-free list needs) -/
 theorem event_hash_iff (a b : Event) :
@@ -258,10 +290,10 @@ theorem loop1_eq (ea eb : List Edge) (evs0 : List Event) :
     rw [hs]
     cases hst : ev.is_start
     · simp [Src.Sweep.doEdgesIntersect.loop1, hst, ih]
-    · have hgt := groups_test act ev (act ++ [ev]) (by intro e; simp)
-      simp only [List.map_append, List.map_cons, List.map_nil] at hgt
-      simp only [Src.Sweep.doEdgesIntersect.loop1, hst, ih, loop2_eq, if_true, Bool.not_true, Bool.false_eq_true,
-        if_false, List.map_append, List.map_cons, List.map_nil, hgt]
+    · simp only [Src.Sweep.doEdgesIntersect.loop1, hst, ih, loop2_eq, if_true, Bool.not_true, Bool.false_eq_true, if_false]
+      rw [groups_test act ev _ (by
+        intro e
+        simp only [List.mem_append, List.mem_cons, List.mem_singleton, List.not_mem_nil, or_false] <;> tauto)]
       by_cases hall : ((act.map key).all fun a => a.2 == (toEv ev).grp) = true
       · simp [hall]
       · simp only [hall, Bool.false_eq_true, if_false]
